@@ -117,6 +117,10 @@ package nack
 //@        && callarg("stream.rtpWriter.Write", 0) == atcall("stream.rtpWriter.Write", callres("Get", 0).header)
 //@        && callarg("stream.rtpWriter.Write", 1) == atcall("stream.rtpWriter.Write", callres("Get", 0).payload)
 //@   ensures sent_outside_lock: calls("stream.rtpWriter.Write") == 1 ==> atcall("stream.rtpWriter.Write", lockstate(stream.rtpBufferMutex)) != -1
+//@   # the reference taken by Get is still held while the packet is handed to the writer (it is dropped afterwards), so the
+//@   # buffers cannot be recycled under the writer
+//@   ensures reference_held_while_sending: calls("stream.rtpWriter.Write") == 1 ==>
+//@        atcall("stream.rtpWriter.Write", callres("Get", 0).count) == aftercall("Get", callres("Get", 0).count)
 //@   ensures continues: result == true
 //@
 //@ func (*ResponderInterceptor).resendPackets
